@@ -29,11 +29,16 @@ type c47cfg struct {
 	setinfo  string // default | custom | disabled
 	resp2    bool   // AlwaysRESP2
 	server   string // resp3 | nohello | nohello3
+	push     bool   // environment: an invalidation push frame arrives among the replies of the setup batch (RESP3 route only)
 	fail     string // setup command made to fail with an error reply ("" = none): e.g. "SELECT", "CLIENT TRACKING", "READONLY", "CLIENT SETINFO", "CLIENT NO-TOUCH", "CLIENT NO-EVICT", "CLIENT SETNAME", "AUTH"
 }
 
 func (c c47cfg) String() string {
-	return fmt.Sprintf("auth=%s name=%q db=%d trk=%s ro=%v nt=%v ne=%v info=%s resp2=%v srv=%s fail=%q", c.auth, c.name, c.db, c.tracking, c.replica, c.notouch, c.noevict, c.setinfo, c.resp2, c.server, c.fail)
+	s := fmt.Sprintf("auth=%s name=%q db=%d trk=%s ro=%v nt=%v ne=%v info=%s resp2=%v srv=%s fail=%q", c.auth, c.name, c.db, c.tracking, c.replica, c.notouch, c.noevict, c.setinfo, c.resp2, c.server, c.fail)
+	if c.push {
+		s += " push-during-setup"
+	}
+	return s
 }
 
 func c47body(c c47cfg) func(x *vsched.Exec) {
@@ -94,6 +99,19 @@ func c47body(c c47cfg) func(x *vsched.Exec) {
 			}
 			if c.fail != "" {
 				srv.FailCmd[c.fail] = "ERR injected failure of " + c.fail
+			}
+			if c.push {
+				// another client's write is announced while the setup batch is being answered: the push frame sits between
+				// the replies of the first and the second setup command after HELLO
+				n := 0
+				srv.Hook = func(ss *simredis.Session, argv []string) *simredis.Reply {
+					if ss.V3 && strings.ToUpper(argv[0]) != "HELLO" && strings.ToUpper(argv[0]) != "ECHO" {
+						if n++; n == 2 {
+							ss.Out([]byte(">2\r\n$10\r\ninvalidate\r\n*1\r\n$5\r\np:key\r\n"))
+						}
+					}
+					return nil
+				}
 			}
 		}
 		e := &vwEnv{srv: srv, net: n}
@@ -223,7 +241,7 @@ func c47body(c c47cfg) func(x *vsched.Exec) {
 
 func TestVerif_C47(t *testing.T) {
 	vrun.Main(t, "C47", func(r *vrun.Run) {
-		r.Rule = "full product of credentials {none, password, user+password, AuthCredentialsFn with user+password, AuthCredentialsFn with a password only} x ClientName x SelectDB x tracking {OPTIN default, OPTOUT, BCAST+PREFIX, DisableCache} x ReplicaOnly x ClientNoTouch x ClientNoEvict x ClientSetInfo {default, custom, disabled} x AlwaysRESP2 x server {RESP3, rejects HELLO, rejects HELLO 3}; plus each setup command failing with an error reply; one deterministic execution each (NewClient handshake + one user command) against the fake server, whose per-connection session state is the oracle"
+		r.Rule = "full product of credentials {none, password, user+password, AuthCredentialsFn with user+password, AuthCredentialsFn with a password only} x ClientName x SelectDB x tracking {OPTIN default, OPTOUT, BCAST+PREFIX, DisableCache} x ReplicaOnly x ClientNoTouch x ClientNoEvict x ClientSetInfo {default, custom, disabled} x AlwaysRESP2 x server {RESP3, rejects HELLO, rejects HELLO 3}; plus each setup command failing with an error reply; plus an invalidation push frame arriving among the replies of the setup batch (RESP3 route, with and without a failing step); one deterministic execution each (NewClient handshake + one user command) against the fake server, whose per-connection session state is the oracle"
 		var cfgs []c47cfg
 		for _, server := range []string{"resp3", "nohello", "nohello3"} {
 			for _, auth := range []string{"none", "pw", "userpw", "fn", "fnpw"} {
@@ -267,6 +285,21 @@ func TestVerif_C47(t *testing.T) {
 				c.fail = f
 				cfgs = append(cfgs, c)
 			}
+		}
+		// a push frame among the setup replies: on the RESP3 route of every configuration that sends every optional command,
+		// without and with each failing step
+		nall := len(cfgs)
+		for i := 0; i < nall; i++ {
+			b := cfgs[i]
+			if b.server != "resp3" || b.resp2 || b.tracking == "off" {
+				continue
+			}
+			if !(b.db != 0 && b.replica && b.notouch && b.noevict && b.name != "" && b.setinfo != "disabled") {
+				continue
+			}
+			c := b
+			c.push = true
+			cfgs = append(cfgs, c)
 		}
 		for ci, c := range cfgs {
 			if !r.Mine(ci) {
